@@ -170,7 +170,7 @@ def run(ctx):
     quick = ctx.quick
     max_cells = 9 if quick else 12
     shapes = mc.shapes_upto(max_cells)
-    extra = [] if quick else [(4, 4), (2, 7), (7, 2), (1, 14)]
+    extra = [] if quick else [(4, 4), (2, 7), (7, 2)]
     ctx.bounds = {"exhaustive_masks_up_to_cells": max_cells, "extra_exhaustive_shapes": extra,
                   "random_masks": 150 if quick else 1500, "random_max_side": 12}
     insts = mc.enumerate_masks(ctx, shapes + extra)
